@@ -417,7 +417,7 @@ def cyclic(g):
 # shaping (docs/tree_construction.md + the statement of C03)
 
 def tok_kept(key, rule, keep_all):
-    if keep_all or rule.mod == '!':
+    if keep_all or '!' in rule.mod:
         return True
     if key[0] == 'lit':
         return False
@@ -446,7 +446,7 @@ def _shape(node, g, text, keep_all, ph):
                 ch.append(('tok', ev[1], text[ev[2]:ev[3]]))
         elif k == 'none':
             if ph:
-                ch.extend([None] * maybe_width(ev[1], keep_all or rule.mod == '!'))
+                ch.extend([None] * maybe_width(ev[1], keep_all or '!' in rule.mod))
         else:
             sub = _shape(ev, g, text, keep_all, ph)
             if sub[0] == 'splice':
@@ -456,7 +456,7 @@ def _shape(node, g, text, keep_all, ph):
             else:
                 ch.append(('tree', sub[1], tuple(sub[2])))
     label = alias or rule.name.split('{')[0]
-    if rule.mod == '?' and not alias and len(ch) == 1:
+    if '?' in rule.mod and not alias and len(ch) == 1:
         return ('one', ch[0])
     if rule.name.startswith('_') and not alias:
         return ('splice', ch)
